@@ -363,6 +363,104 @@ def kill_cases(r, n):
 
 
 # ---------------------------------------------------------------------------------------------
+# an observer between any two system calls of a mutating operation (C07, two-operation interleavings)
+# ---------------------------------------------------------------------------------------------
+_OBS_TIME = re.compile(r"time=\d+")
+
+
+def observer_cases():
+    k, other = b"ok", b"other"
+    old, new = b"the old value", b"the NEW value, a little longer"
+    warm = [w_oneshot("s", "sha256", other, b"other value"), w_oneshot("s", "sha256", k, old)]
+    s_old, s_new = sri_tok("sha256", old), sri_tok("sha512", new)
+    obs = [f"metadata s c0 {hx(k)}", f"metadata a c0 {hx(k)}", f"read s c0 {hx(k)}", f"read a c0 {hx(k)}", "list c0",
+           f"exists s c0 {s_old}", f"exists s c0 {s_new}", f"read_hash s c0 {s_old}", f"read_hash a c0 {s_new}",
+           f"read s c0 {hx(other)}"]
+    cases = []
+    for vf in "sa":
+        cases += [
+            {"name": f"first-write/{vf}", "cold": True, "setup": [], "victim": w_oneshot(vf, "sha512", k, new), "observers": obs},
+            {"name": f"first-write-hash/{vf}", "cold": True, "setup": [], "victim": f"write_hash {vf} c0 sha512 {hx(new)}", "observers": obs},
+            {"name": f"overwrite/{vf}", "cold": False, "setup": warm, "victim": w_oneshot(vf, "sha512", k, new), "observers": obs},
+            {"name": f"same-content/{vf}", "cold": False, "setup": warm, "victim": w_oneshot(vf, "sha256", b"k2", old), "observers": obs},
+            {"name": f"remove/{vf}", "cold": False, "setup": warm, "victim": f"remove {vf} c0 {hx(k)}", "observers": obs},
+            {"name": f"remove-hash/{vf}", "cold": False, "setup": warm, "victim": f"remove_hash {vf} c0 {s_old}", "observers": obs},
+        ]
+    return cases
+
+
+def leg_observer_sweep(flavour, tier, jobs=8):
+    """Two-operation interleavings at system-call granularity, one of the two read-only: the mutating
+    operation is stopped (SIGKILL) on entry to its N-th mutating system call, for every N, and each
+    observer (lookup, read, listing, exists, read by address - sync and async) runs on the directory as
+    it stands.  Every observer answer must be its answer BEFORE the operation or its answer AFTER it
+    (times masked): anything else is a result no sequential order of the two operations produces."""
+    failures, samples = [], []
+    points, states = 0, set()
+    W = {"DRIVE_WORKER": "1"}
+
+    def norm_obs(line):
+        return _OBS_TIME.sub("time=T", E.norm(line))
+
+    def sweep(case):
+        out = []
+        tmpl = os.path.join(C.scratch_root(), f"obs-tmpl{next(E._counter)}")
+        if case["setup"]:
+            T.run_traced(flavour, case["setup"], scratch=tmpl)
+        else:
+            shutil.rmtree(tmpl, ignore_errors=True); os.makedirs(tmpl)
+
+        def fresh():
+            d = os.path.join(C.scratch_root(), f"obs{next(E._counter)}")
+            shutil.rmtree(d, ignore_errors=True)
+            shutil.copytree(tmpl, d, symlinks=True)
+            return d
+        sc = fresh()
+        before = E.run_impl(flavour, "\n".join(case["observers"]) + "\n", scratch=sc, reuse=True)[0]
+        shutil.rmtree(sc, ignore_errors=True)
+        sc = fresh()
+        base = T.run_traced(flavour, [case["victim"]], scratch=sc, reuse=True, env_extra=W)
+        after = E.run_impl(flavour, "\n".join(case["observers"]) + "\n", scratch=sc, reuse=True)[0]
+        shutil.rmtree(sc, ignore_errors=True)
+        names = KILL_SET.split(",")
+        pids = list(base.counts_by_pid)
+        threads = pids[1:] if len(pids) > 1 else pids
+        total = max([sum(base.counts_by_pid[t].get(nm, 0) for nm in names) for t in threads] or [0])
+        for n in range(1, total + 1):
+            scratch = fresh()
+            r = T.run_traced(flavour, [case["victim"]], scratch=scratch, reuse=True, env_extra=W,
+                             inject=f"inject={KILL_SET}:signal=SIGKILL:when={n}")
+            got = E.run_impl(flavour, "\n".join(case["observers"]) + "\n", scratch=scratch, reuse=True)[0]
+            shutil.rmtree(scratch, ignore_errors=True)
+            out.append((n, r, got))
+        shutil.rmtree(tmpl, ignore_errors=True)
+        return case, before, after, out
+    with ThreadPoolExecutor(max_workers=jobs) as ex:
+        allres = list(ex.map(sweep, observer_cases()))
+    for case, before, after, out in allres:
+        for n, r, got in out:
+            if not r.killed:
+                continue
+            points += 1
+            where = f"`{case['victim'][:40]}` ({case['name']}) stopped on entry to its mutating system call {n}"
+            for j, o in enumerate(case["observers"]):
+                g = norm_obs(got[j]) if j < len(got) else "missing"
+                allowed = {norm_obs(before[j]) if j < len(before) else "?", norm_obs(after[j]) if j < len(after) else "?"}
+                states.add((case["name"].split("/")[0], o.split(" ")[0], g.split(" ")[0], g in allowed))
+                if g not in allowed:
+                    f = Failure("not_serializable", n, f"{where}: `{o[:40]}` answers {g[:70]} - before the operation it answers "
+                                f"{norm_obs(before[j])[:50]}, after it {norm_obs(after[j])[:50]}",
+                                sig={"victim": case["victim"].split(" ")[0], "observer": o.split(" ")[0], "cold": case["cold"],
+                                     "answer": E.rclass(g)})
+                    f.replay_text = "\n".join(case["setup"] + [case["victim"]]) + f"\n# stopped with inject={KILL_SET}:signal=SIGKILL:when={n} (DRIVE_WORKER=1); then:\n{o}\n"
+                    failures.append(f)
+            if len(samples) < 3:
+                samples.append({"victim": case["victim"][:60], "stopped_at": n, "observers": [norm_obs(x)[:40] for x in got[:5]]})
+    return {"failures": failures, "disagreements": [], "evaluations": points * len(observer_cases()[0]["observers"]),
+            "distinct_nontrivial": len(states), "samples": samples, "observer_points": points}
+
+
+# ---------------------------------------------------------------------------------------------
 # errno injection (C13)
 # ---------------------------------------------------------------------------------------------
 
